@@ -169,14 +169,33 @@ Lemma save_body_fields s :
   snd (save_body s) = [MetaSave (dump_of (s_offs s) (range_list (s_range s))) (dirty_of (s_dirty s) all_vbs)].
 Proof. unfold save_body; cbn. repeat split; reflexivity. Qed.
 
+(* whatever holds of a state and survives the bookkeeping of the queue and the body of a save holds after the hand-over *)
+Lemma drain_preserves (P : sstate -> Prop) :
+  (forall s q, P s -> P (set_queued s q)) -> (forall s, P s -> P (fst (save_body s))) ->
+  forall q s, P s -> P (fst (drain q s)).
+Proof.
+  intros HQ HB. induction q as [|q IH]; intros s H; cbn [drain]; [exact H|].
+  destruct (s_any_dirty s).
+  - apply HB, HQ, H.
+  - specialize (IH (set_queued s q) (HQ _ _ H)). destruct (drain q (set_queued s q)) as [s' outs]. exact IH.
+Qed.
+
 Lemma next_queued_fields s :
   let s' := fst (next_queued s) in
   s_offs s' = s_offs s /\ s_ctxs s' = s_ctxs s /\ s_store s' = s_store s /\ s_failed s' = s_failed s /\
   s_range s' = s_range s /\ s_active s' = s_active s /\ s_obs s' = s_obs s.
 Proof.
-  unfold next_queued. destruct (s_queued s); [repeat split; reflexivity|].
-  unfold save_body; cbn. repeat split; reflexivity.
+  unfold next_queued.
+  apply (drain_preserves (fun s' => s_offs s' = s_offs s /\ s_ctxs s' = s_ctxs s /\ s_store s' = s_store s /\ s_failed s' = s_failed s /\
+                                    s_range s' = s_range s /\ s_active s' = s_active s /\ s_obs s' = s_obs s)).
+  - intros x q H. exact H.
+  - intros x H. unfold save_body; cbn. exact H.
+  - repeat split.
 Qed.
+
+(* with nobody waiting the hand-over does nothing *)
+Lemma next_queued_none s : s_queued s = 0%nat -> next_queued s = (s, []).
+Proof. intros Q. unfold next_queued. now rewrite Q. Qed.
 
 (* ---------- the state invariant: C06 validity + C05 "dirty implies flagged" ---------- *)
 Record Inv (s : sstate) : Prop := {
@@ -244,8 +263,9 @@ Qed.
 
 Lemma Inv_next_queued s : Inv s -> Inv (fst (next_queued s)).
 Proof.
-  intros I. unfold next_queued. destruct (s_queued s) as [|q]; [exact I|].
-  apply Inv_save_body. eapply Inv_proj; eauto.
+  intros I. unfold next_queued. apply (drain_preserves Inv); [| |exact I].
+  - intros x q H. eapply Inv_proj; eauto.
+  - intros x H. now apply Inv_save_body.
 Qed.
 
 Theorem Inv_step s o : Inv s -> Inv (fst (step s o)).
@@ -292,7 +312,7 @@ Proof.
     destruct (s_inflight s) eqn:Ei; [exact I|]. destruct (negb (s_any_dirty s)); [exact I|].
     now apply Inv_save_body.
   - (* SaveQueue *)
-    destruct (s_inflight s); [|exact I]. destruct (negb (s_any_dirty s)); [exact I|]. eapply Inv_proj; eauto.
+    destruct (s_inflight s); [|exact I]. eapply Inv_proj; eauto.
   - (* SaveWrite *)
     destruct (s_inflight s) as [[dump dl]|] eqn:Ei; [|exact I].
     destruct (lookup_doc dump vb) as [d|] eqn:El; [|exact I]. destruct (mem vb dl); [|exact I].
@@ -370,11 +390,18 @@ Proof.
   apply in_dump_of in Hd. destruct Hd as (o & Ho & ->). apply valid_doc_of. exact (inv_offs s I vb o Ho).
 Qed.
 
-Lemma next_queued_outs_valid s : Inv s -> Forall out_valid (snd (next_queued s)).
+Lemma drain_outs_valid q : forall s, Inv s -> Forall out_valid (snd (drain q s)).
 Proof.
-  intros I. unfold next_queued. destruct (s_queued s) as [|q]; [apply Forall_nil|].
-  apply save_body_outs_valid. eapply Inv_proj; eauto.
+  induction q as [|q IH]; intros s I; cbn [drain]; [apply Forall_nil|].
+  destruct (s_any_dirty s).
+  - apply save_body_outs_valid. eapply Inv_proj; eauto.
+  - assert (I1 : Inv (set_queued s q)) by (eapply Inv_proj; eauto).
+    specialize (IH _ I1). destruct (drain q (set_queued s q)) as [s' outs]. cbn [snd] in *.
+    apply Forall_cons; [exact Logic.I|exact IH].
 Qed.
+
+Lemma next_queued_outs_valid s : Inv s -> Forall out_valid (snd (next_queued s)).
+Proof. intros I. apply drain_outs_valid, I. Qed.
 
 Theorem step_outputs_valid s o : Inv s -> Forall out_valid (snd (step s o)).
 Proof.
@@ -572,8 +599,9 @@ Section Log.
 
   Lemma LogInv_next_queued s L : LogInv s L -> LogInv (fst (next_queued s)) L.
   Proof.
-    intros LI. unfold next_queued. destruct (s_queued s) as [|q]; [exact LI|].
-    apply LogInv_save_body. eapply LogInv_proj; eauto.
+    intros LI. unfold next_queued. apply (drain_preserves (fun x => LogInv x L)); [| |exact LI].
+    - intros x q H. eapply LogInv_proj; eauto.
+    - intros x H. now apply LogInv_save_body.
   Qed.
 
   Theorem LogInv_step s L o : LogInv s L -> LogInv (fst (step s o)) (L ++ log_add s o).
@@ -627,7 +655,7 @@ Section Log.
       rewrite app_nil_r in *. destruct (s_inflight s) eqn:Ei; [exact LI|]. destruct (negb (s_any_dirty s)); [exact LI|].
       now apply LogInv_save_body.
     - (* SaveQueue *)
-      rewrite app_nil_r in *. destruct (s_inflight s); [|exact LI]. destruct (negb (s_any_dirty s)); [exact LI|]. eapply LogInv_proj; eauto.
+      rewrite app_nil_r in *. destruct (s_inflight s); [|exact LI]. eapply LogInv_proj; eauto.
     - (* SaveWrite *)
       rewrite app_nil_r in *. destruct (s_inflight s) as [[dump dl]|] eqn:Ei; [|exact LI].
       destruct (lookup_doc dump vb) as [d|] eqn:El; [|exact LI]. destruct (mem vb dl); [|exact LI].
@@ -761,7 +789,7 @@ Proof.
     assert (M : fold_left (fun m v => fupd m v true) dl (s_dirty s) vb = Some true).
     { destruct Hm as [Hin|Hd]; [now apply fold_dirty_hit|now apply fold_dirty_keeps]. }
     unfold next_queued. cbn [s_queued set_inflight set_dirty]. destruct (s_queued s) as [|q]; [left; exact M|].
-    right. pose proof (save_body_fields (set_queued (set_inflight (set_dirty s (fold_left (fun m v => fupd m v true) dl (s_dirty s)) true) None) q)) as SB.
+    cbn [drain s_any_dirty set_inflight set_dirty]. right. pose proof (save_body_fields (set_queued (set_inflight (set_dirty s (fold_left (fun m v => fupd m v true) dl (s_dirty s)) true) None) q)) as SB.
     cbn zeta in SB. destruct SB as (_ & _ & _ & _ & _ & _ & _ & _ & _ & SI & _). rewrite SI. eexists _, _. split; [reflexivity|].
     apply in_dirty_of; [apply (in_vb_list 0 1023); lia|exact M].
   - intros Q. unfold next_queued. cbn [s_queued set_inflight set_dirty]. rewrite Q. cbn. auto.
